@@ -129,6 +129,18 @@ CLAIMED['C17'] = dict(
               'seeded operation history, crash-and-restart from durable state',
     design='6/C17')
 
+CLAIMED['C19'] = dict(
+    level='exploration',
+    text='Seeded search over equipment ids / descriptions (ASCII, JSON escapes, multi-byte, lengths around the 508 byte '
+         'budget), interface lists and datagram sequences from several peers (valid requests, other JSON values, invalid '
+         'UTF-8, empty, oversized) with loss, duplication, reordering and truncation, against the real UDPListener '
+         'running in its own task on a simulated datagram socket. Every datagram sent must be a UTF-8 JSON object <= 508 '
+         'bytes with the identity, a configured tcp port and a character-boundary prefix of the description; disabled '
+         'only if the identity alone does not fit; answers iff discovery request; alive after every datagram.',
+    note='Trusted: simulated UDP socket, constant firmware version. The budgeting clause is a pure function of the '
+         'strings; it is checked as a rider of the simulated runs.',
+    design='6/C19')
+
 NOT_APPLICABLE = {
     'C01': 'pure function of (datatype, candidate, previous) - no schedule, clock, I/O or fault dimension for a simulator to decide',
     'C02': 'pure round-trip law over (datatype, value) - no schedule, clock, I/O or fault dimension',
